@@ -195,6 +195,13 @@ class CCIReader(TypeReaderBase):
             # no update partition, or it has no RomFS
             pass
 
+    def close(self):
+        """Close the reader and the readers of its contents."""
+        if not self.closed:
+            for content in getattr(self, 'contents', {}).values():
+                content.close()
+        super().close()
+
     def __repr__(self):
         info = [('media_id', self.media_id)]
         try:
